@@ -45,7 +45,7 @@ ASSUMPTIONS = [
     'dialogue harness: the checking thread waits (bounded wall clock, expiry = inconclusive) until its own select() sees the kernel state the peer action '
     'produces, then ticks a bounded number of times; verdicts are on the resulting streams only',
 ]
-REQUIRED = ['change_inside_select_call', 'inselect_control_event_seen', 'iter_select', 'iter_poll', 'iter_epoll', 'reader_ready_emitted', 'writer_ready_emitted', 'registered_not_ready_silent',
+REQUIRED = ['descriptor_registered_by_number', 'intfd_control_events_seen', 'change_inside_select_call', 'inselect_control_event_seen', 'iter_select', 'iter_poll', 'iter_epoll', 'reader_ready_emitted', 'writer_ready_emitted', 'registered_not_ready_silent',
             'ready_not_registered_silent', 'remove_one_role_other_stays', 'readd_after_discard', 'owner_changed_after_discard',
             'send_buffer_full_not_writable', 'writable_again_after_drain', 'peer_closed_hup', 'disconnect_instead_of_write', 'half_close_read',
             'peer_reset', 'discard_then_close', 'close_then_discard', 'close_without_discard', 'fd_number_reused',
@@ -1346,6 +1346,112 @@ def inselect_cases(b):
                 pass
 
 
+def intfd_cases(b):
+    """Descriptors registered by NUMBER (as circuits.io does) and closed at the OS level without discard(): every poller must
+    drop them (no further events, the other registered descriptors keep being served, nothing escapes the iteration), also
+    once the number is taken over by an unrelated readable descriptor."""
+    import os
+    import socket as _socket
+    import threading
+
+    from circuits import BaseComponent, handler
+    from circuits.core import pollers as P
+    from circuits.core.events import generate_events
+
+    for pname in ('Select', 'Poll', 'EPoll'):
+        for role in ('reader', 'writer'):
+            seen, excs = [], []
+
+            class Obs(BaseComponent):
+                @handler('_read', '_write', '_disconnect', '_error', channel='*', priority=10)
+                def _on(self, event, *args):
+                    seen.append((event.name, args[0] if args else None, event.channels))
+
+                @handler('exception', channel='*')
+                def _on_exc(self, etype, evalue, tb, handler=None, fevent=None):
+                    excs.append(repr(evalue))
+
+            root = Obs()
+            poller = getattr(P, pname)().register(root)
+            sx = BaseComponent(channel='x').register(root)
+            sz = BaseComponent(channel='z').register(root)
+            while len(root):
+                root.flush()
+            a, a_peer = _socket.socketpair()
+            c, c_peer = _socket.socketpair()
+            number = os.dup(a.fileno())      # the descriptor registered by number
+            a.close()
+            other, other_peer = _socket.socketpair()   # (created now, so that neither end can get `number` once that is free)
+
+            def iterate(n=1):
+                for _ in range(n):
+                    root.fire(generate_events(threading.RLock(), 0), '*')
+                    while len(root):
+                        root.flush()
+
+            if role == 'reader':
+                a_peer.send(b'1')
+                poller.addReader(sx, number)
+            else:
+                poller.addWriter(sx, number)
+            c_peer.send(b'2')
+            poller.addReader(sz, c)
+            iterate()
+            control = {(n, o) for n, o, _ in seen}
+            case = {'family': 'intfd', 'poller': pname, 'role': role}
+            b.case(case, nontrivial=True)
+            b.reached('descriptor_registered_by_number')
+            want = ('_read' if role == 'reader' else '_write', number)
+            if want in control and ('_read', c) in control:
+                b.reached('intfd_control_events_seen')
+            del seen[:], excs[:]
+            os.close(number)                 # closed at the OS level, no discard()
+            served = 0
+            for _ in range(4):
+                c_peer.send(b'3')
+                c.recv(100)                  # drain so that each iteration needs a fresh readiness
+                c_peer.send(b'4')
+                iterate()
+                if any(n == '_read' and o is c for n, o, _ in seen):
+                    served += 1
+                c.recv(100)
+            stale1 = [(n, 'closed-number') for n, o, _ in seen if o == number and n in ('_read', '_write')]
+            os.dup2(other.fileno(), number)   # an unrelated descriptor takes the number
+            other_peer.send(b'5')
+            del seen[:]
+            iterate(3)
+            stale2 = [(n, 'reused-number') for n, o, _ in seen if o == number]
+            problems = []
+            if stale1 or stale2:
+                problems.append(('NO_EVENT_FOR_CLOSED', {'poller': pname, 'events_for_the_closed_number': stale1 + stale2}))
+            if served < 3:
+                problems.append(('COMPLETE_READ', {'poller': pname, 'note': 'another registered, readable descriptor was no longer reported after a '
+                                                   'number-registered descriptor had been closed', 'iterations_served': served, 'exceptions': excs[:2]}))
+            if excs:
+                problems.append(('POLLER_RAISED', {'poller': pname, 'exceptions': excs[:3]}))
+            if problems:
+                for clause, detail in problems:
+                    b.fail(case, clause, detail, dedup='intfd')
+            else:
+                b.ok('NO_EVENT_FOR_CLOSED')
+                b.ok('COMPLETE_READ')
+            for fd in (number,):
+                try:
+                    os.close(fd)
+                except OSError:
+                    pass
+            for so in (a_peer, c, c_peer, other, other_peer):
+                try:
+                    so.close()
+                except OSError:
+                    pass
+            for fd in (poller._ctrl_recv, poller._ctrl_send):
+                try:
+                    os.close(fd)
+                except OSError:
+                    pass
+
+
 def run_batch(spec):
     import circuits  # noqa: F401
     b = Batch(PROPERTY)
@@ -1353,6 +1459,7 @@ def run_batch(spec):
         for case in corpus():
             evaluate_case(b, case)
         inselect_cases(b)
+        intfd_cases(b)
     elif spec['kind'] == 'random':
         rng = random.Random(spec['seed'])
         for _ in range(spec['n']):
